@@ -59,7 +59,7 @@ ReplaceExportedRewiresOneThing ==
             (st.exports[k].target = f /\ n.exports[k].target = Len(st.funcs) /\ n.exports[k].name = st.exports[k].name)
 
 C0 == [k |-> "const", v |-> "i32:0", r |-> -1]
-F(imp, refs) == [live |-> TRUE, imported |-> imp, sig |-> "()->()", refs |-> refs]
+F(imp, refs) == [live |-> TRUE, imported |-> imp, sig |-> "()->()", refs |-> refs, name |-> (IF imp THEN "" ELSE "n")]
 S1 == [funcs |-> <<F(TRUE, <<>>), F(FALSE, <<<<"func", 0>>, <<"global", 0>>>>), F(FALSE, <<<<"func", 1>>>>)>>,
        tables |-> <<[live |-> TRUE, imported |-> FALSE, ty |-> "funcref min=2 max=none t64=false shared=false"]>>,
        memories |-> <<[live |-> TRUE, imported |-> FALSE, ty |-> "min=1 max=none m64=false shared=false pagelog2=none"]>>,
